@@ -51,10 +51,15 @@ func firstLine(s string) string {
 }
 
 func runSolver(ctx context.Context, sp solverSpec, file string, timeoutS, seed int) (status, out string, dur float64) {
-	args := sp.args(file, timeoutS, seed)
-	cctx, cancel := context.WithTimeout(ctx, time.Duration(timeoutS+2)*time.Second)
+	// The limit is on the solver's CPU time (ulimit -t), not on the wall clock: on a loaded machine a
+	// query takes longer but costs the same, and a wall-clock limit would turn load into failed
+	// obligations. The solver's own wall-clock limit and the context are generous backstops.
+	wall := timeoutS*12 + 60
+	args := sp.args(file, wall, seed)
+	cctx, cancel := context.WithTimeout(ctx, time.Duration(wall+5)*time.Second)
 	defer cancel()
-	cmd := exec.CommandContext(cctx, args[0], args[1:]...)
+	shArgs := append([]string{"-c", fmt.Sprintf("ulimit -t %d; exec \"$@\"", timeoutS+1), "sh"}, args...)
+	cmd := exec.CommandContext(cctx, "sh", shArgs...)
 	var buf bytes.Buffer
 	cmd.Stdout = &buf
 	cmd.Stderr = &buf
@@ -71,6 +76,8 @@ func runSolver(ctx context.Context, sp solverSpec, file string, timeoutS, seed i
 	default:
 		if cctx.Err() != nil {
 			status = "timeout"
+		} else if ps := cmd.ProcessState; ps != nil && !ps.Exited() {
+			status = "timeout" // killed by the CPU-time limit
 		} else if strings.Contains(out, "timeout") || strings.Contains(out, "interrupted") {
 			status = "timeout"
 		} else {
